@@ -9,6 +9,41 @@ NOTE_COMMON = ("Trusted: Lean 4.33 kernel; axioms propext/Classical.choice/Quot.
                "differential execution (sampling, not proof); harness, generators and the cfg(sentinel_verif) hooks; std, lru, serde are not modelled.")
 
 CLAIMS = {
+ "C01": dict(
+    category="proof",
+    text=("flow_admit_iff / flow_admit_iff_run: for every rule list (any number, any thresholds incl. fractional and 0, any stat_interval_ms: default, "
+          "reused global window, private window), every operation history of any length with non-decreasing times (enters with any batch incl. 0, "
+          "completions in any order), the flow slot admits exactly when admitted-in-window + n <= threshold for every rule, where the window count is "
+          "computed from the admitted history (via the C02 ring refinement for the node's global array and every private array); "
+          "flow_no_false_reject, flow_block_names_rule (named rule really does not fit, snapshot = its window count), flow_window_cap "
+          "(no bucket-aligned window ever holds more than the threshold, for every history in which admissions obeyed the rule; run_admOk shows runs produce such histories); "
+          "flowStatFor_ok (every stat_interval_ms yields well-formed statistics). Model (Sentinel/World.lean) tied to flow/slot.rs, traffic_shaping/default.rs, "
+          "rule_manager.rs::generate_stat_for, standalone_stat_slot.rs, stat_slot.rs through EntryBuilder on the real global slot chain under a virtual clock; "
+          "the admission Spec is evaluated on the implementation's own decisions."),
+    design_ref="DESIGN.md §6 C01",
+    technique="Lean 4 invariant proof over operation histories (on top of the ring refinement) + differential correspondence through EntryBuilder + Spec oracle on implementation traces",
+    note=NOTE_COMMON + " Modelling assumptions: counts < 2^53 (u64->f64 exact), default configuration (20x500 ms global, 2x500 ms metric), RelationStrategy::Current only, "
+         "rules loaded before traffic (a private window sees admissions since its rule was loaded). Controller order (HashSet iteration) is adopted from the implementation; theorems hold for every order."),
+ "C04": dict(
+    category="proof",
+    text=("build_accounts_once: World.build records exactly one of pass/block with the batch count on the resource's node and mirrors it on the inbound node iff inbound "
+          "(outbound_not_mirrored), build_frame: other resources untouched, exit_records_completion, blocked_leaves_no_trace; run_acctOk / node_reads_eq / "
+          "concurrency_eq_open_passed: after any sequence of pass/block/completion recordings of any length with non-decreasing times, every statistic the node reports over its "
+          "window equals the sum over the entries' history and the in-flight count equals the number of passed, un-exited entries. Tied to stat_slot.rs, resource_node.rs, "
+          "node_storage.rs, api/base.rs, entry.rs by differential execution through the real global chain (node and inbound node read after every op); the accounting Spec is "
+          "evaluated on the implementation's answers."),
+    design_ref="DESIGN.md §6 C04",
+    technique="Lean 4 proofs (World-level frame theorems + node invariant by induction over histories) + differential correspondence + Spec oracle on implementation traces",
+    note=NOTE_COMMON + " Precondition as in the property: each passed entry exited exactly once. The global inbound node is process-wide: cases are separated by one virtual hour."),
+ "C05": dict(
+    category="proof",
+    text=("Isolation half: isolation_admit_iff (admitted iff in-flight + n <= every threshold, any rule list, any batch), isolation_block_names_rule (named rule really exceeded, snapshot = in-flight), "
+          "isolation_cap (in-flight never exceeds any threshold over any build/exit sequence with batch >= 1), freed_capacity_usable, iso_conc_eq_open, block type = Isolation. "
+          "Tied to isolation/slot.rs + node concurrency via EntryBuilder on the global chain; Spec evaluated on implementation traces. The hotspot-concurrency half "
+          "(per-value caps, overrides, extract_args) is stated in DESIGN and is added with the hotspot model; until then this check covers the isolation half only."),
+    design_ref="DESIGN.md §6 C05",
+    technique="Lean 4 proofs (decision lemma + invariant over build/exit sequences) + differential correspondence + Spec oracle on implementation traces",
+    note=NOTE_COMMON + " Found and fixed with this check: D1 (isolation rejections reported as SystemFlow) — fix: commit ee5bd62; witness kept in corpus/C05."),
  "C02": dict(
     category="proof",
     text=("Ring refinement proved for every geometry (0<n, 0<L), every history of events with non-decreasing timestamps of any length "
